@@ -659,4 +659,18 @@ theorem case_calls_return_first_use_verdicts (c : CaseM) (j : Nat) (hj : j < c.g
 example : readsOf 1 sigma0 (caseTrace busyCase) = [1, 1] ++ [1, 1, 1, 1, 7, 0] ∧
     (List.range busyCase.per).map (fun r => solo sigma0 (getOp 1 busyCase.ops (1 + r))) = [[1, 1], [1, 1, 1, 1, 7, 0]] := by decide
 
+/-- What a goroutine of a case observes depends on ITS OWN calls only: not on the interleaving seed, not on how many
+    other goroutines run next to it (two cases with the same operations and the same number of calls per goroutine,
+    any seeds, any numbers of goroutines). -/
+theorem case_observations_depend_on_own_calls_only (c c' : CaseM) (hops : c'.ops = c.ops) (hper : c'.per = c.per)
+    (j : Nat) (hj : j < c.g) (hj' : j < c'.g) :
+    readsOf j sigma0 (caseTrace c) = readsOf j sigma0 (caseTrace c') := by
+  rw [case_calls_return_first_use_verdicts c j hj, case_calls_return_first_use_verdicts c' j hj', hops, hper]
+
+/-- instance: another seed and 60 more goroutines change nothing for goroutine 1 of `busyCase` -/
+example : readsOf 1 sigma0 (caseTrace busyCase) = readsOf 1 sigma0 (caseTrace { busyCase with sched := 12345, g := 64 }) := by
+  apply case_observations_depend_on_own_calls_only busyCase { busyCase with sched := 12345, g := 64 } rfl rfl 1
+  · show 1 < 4; omega
+  · show 1 < 64; omega
+
 end KinModel.Conc
